@@ -38,3 +38,12 @@ package health
 //@   ensures stopped: abool(p.stopped) ==> checkEnds() == old(checkEnds())
 //@   ensures reported: !abool(p.stopped) ==> checkEnds() == old(checkEnds()) + 1 && (lastCheckOk() <==> state.Status == "ok") && (lastCheckFatal() <==> state.ContiguousFailures == p.probe.FailureThreshold)
 //@   assigns checkEnds(), lastCheckOk(), lastCheckFatal()
+
+// C10: an exec probe succeeds exactly when its command ran to a zero exit status: any failure of Run (non-zero
+// exit, killed by a signal or by the probe timeout, could not be started) is reported to go-health as an error.
+//@ func (c *execChecker) Status
+//@   param cancel as cancelfunc
+//@   ensures ran-once: runs() == old(runs()) + 1 && ranDir() == c.workingDir
+//@   ensures failure-is-error: lastRunFailed() ==> result1 != nil
+//@   ensures success-is-ok: !lastRunFailed() ==> result1 == nil
+//@   ensures timeout: lastTimeout() == c.timeout * 1000000000
